@@ -330,6 +330,14 @@ impl FileManager {
 
         let offset = Self::page_aligned_offset(page_id);
         
+        // The file may have changed its length since it was opened: a page that ends
+        // beyond the recorded length is checked against the length the file has now
+        if offset + PAGE_SIZE as u64 > entry.size {
+            entry.size = entry.file.metadata()
+                .map_err(|e| ZiporaError::invalid_data(format!("Failed to get file metadata {:?}: {}", entry.path, e)))?
+                .len();
+        }
+        
         // Check if offset is within file bounds
         if offset >= entry.size {
             return Ok(0); // End of file
